@@ -5,13 +5,15 @@ namespace MetricsVerif.Driver.Recoverable
 open MetricsVerif.Driver MetricsVerif.Recoverable
 
 /-- thread program: calls joined by `+`: `e` emit, `i` into_inner, `d` drop handle, `p` emission in which the
-    recorder panics, `n` emission in which the recorder emits again through the wrapper -/
+    recorder panics, `n` emission in which the recorder emits again through the wrapper, `k` registration whose returned handle is kept, `u` write through the kept
+    handles, `x` drop the kept handles -/
 def progTok (s : String) : Option (List Call) :=
   if s == "-" then some [] else
   (s.splitOn "+").mapM (fun c =>
     match c with
     | "e" => some Call.emit | "i" => some Call.intoInner | "d" => some Call.dropHandle
-    | "p" => some Call.emitPanic | "n" => some Call.emitNested | _ => none)
+    | "p" => some Call.emitPanic | "n" => some Call.emitNested
+    | "k" => some Call.emitKeep | "u" => some Call.useKept | "x" => some Call.dropKept | _ => none)
 
 def schedTok (s : String) : Option (List Nat) :=
   if s == "-" then some [] else (s.splitOn ".").mapM String.toNat?
@@ -19,6 +21,7 @@ def schedTok (s : String) : Option (List Nat) :=
 def showRes : Res → String
   | .delivered => "delivered" | .ignored => "ignored" | .recovered => "recovered" | .dropped => "dropped"
   | .panicked => "panicked" | .nestedDelivered => "nested-delivered" | .nestedIgnored => "nested-ignored"
+  | .used l i => s!"used-{l}-{i}" | .keptDropped n => s!"kept-dropped-{n}"
 
 def cellTok (s : String) : Option (Option Nat) :=
   if s == "~" then some none else s.toNat?.map some
